@@ -130,9 +130,9 @@ class Hist:
         self.cfg["fast"] = r.choice(p.fasts)
         self.cfg["thr"] = r.choice(p.thrs)
         self.cfg["iv"] = iv
-        self.emit("cfg db=%s cache=%d fast=%d thr=%d iv=%s" % (
+        self.emit("cfg db=%s cache=%d fast=%d thr=%d iv=%s%s" % (
             self.cfg["db"], self.cfg["cache"], int(self.cfg["fast"]), self.cfg["thr"],
-            "-" if iv is None else str(iv)))
+            "-" if iv is None else str(iv), " sync=%d" % r.randint(0, 1) if r.random() < 0.3 else ""))
         self.iv_pending = iv
         self.iv_opt = iv or 0
 
